@@ -104,7 +104,7 @@ pub enum Item {
     RChunk { seed: u64, max: u64 },
     // size hint reported by statx for the script
     Hint { size: u64 },
-    // file type reported for the script: 1 fifo, 2 character device (size 0, not seekable)
+    // file type reported for the script: 1 fifo, 2 character device, 3 terminal (size 0, not seekable)
     FType { kind: u8 },
     // FIFO semantics for a descriptor the program made non-blocking: mode 1 = no writer yet
     // (reads return 0), mode 2 = the writer pauses (read n fails with EAGAIN once)
@@ -127,7 +127,7 @@ impl Item {
             Item::WChunk { fd, seed, max } => format!("wchunk={fd}:{seed}:{max}"),
             Item::RChunk { seed, max } => format!("rchunk={seed}:{max}"),
             Item::Hint { size } => format!("hint={size}"),
-            Item::FType { kind } => format!("ftype={}", if *kind == 2 { "chr" } else { "fifo" }),
+            Item::FType { kind } => format!("ftype={}", match *kind { 2 => "chr", 3 => "tty", _ => "fifo" }),
             Item::NbFifo { mode, n } => if *mode == 1 { "nb=late".to_string() } else { format!("nb=slow:{n}") },
             Item::Eof { k } => format!("eof={k}"),
             Item::Flip { off, bytes } => format!("flip={off}:{}", hex(bytes)),
@@ -168,7 +168,7 @@ impl Item {
                 Some(Item::RChunk { seed: a.parse().ok()?, max: b.parse().ok()? })
             }
             "hint" => Some(Item::Hint { size: val.parse().ok()? }),
-            "ftype" => Some(Item::FType { kind: if val == "chr" { 2 } else { 1 } }),
+            "ftype" => Some(Item::FType { kind: match val { "chr" => 2, "tty" => 3, _ => 1 } }),
             "nb" => {
                 if val == "late" {
                     Some(Item::NbFifo { mode: 1, n: 0 })
